@@ -12,7 +12,7 @@ Op lines (times are milliseconds relative to the case start; both sides add the 
   entry <id> <res> in|out <batch> <chain> <nargs> <arg>*      chain = default | c/<pre>/<rules>/<stats>
   trace <id> <err|nil> | exit <id> [<err>]
   read <res|__inbound__> sum|sum10 <ev> | read <res|__inbound__> conc|maxconc|minrt
-  ctx <id> err|args | reclog
+  ctx <id> err|args | reclog | soak <G> <N> <R> <seed>
 The spec keeps the per-key event lists incrementally (`evs (x :: r) k = evs r k ++ contrib r x k` is the
 definition), so that a read does not recompute the whole history.
 -/
@@ -56,6 +56,8 @@ structure D where
   iso : List (String × Nat) := []
   hot : List String := []
   drained : Nat := 0
+  soaks : Nat := 0
+  soakAt : Option Nat := none      -- time of the last soak: the peak concurrency inside it is schedule dependent
   drT : Nat := 0
   drF : Nat := 0
   cT : Cache := {}
@@ -131,6 +133,31 @@ def apply (d : D) (spec : Bool) (op : Op) : D :=
   if spec then { d with cT := d.cT.push true d.h x, cF := d.cF.push false d.h x, h := x :: d.h }
   else { d with st := Sentinel.Entry.step d.fix d.st x, h := x :: d.h }
 
+/-- the soak's pseudo-random choices (same generator on the Go side) -/
+def lcg (x : Nat) : Nat := (x * 1103515245 + 12345) % 2147483648
+
+/-- `soak G N R seed`: `G` goroutines, each `N` times Entry → (TraceError) → Exit on resources `s0..s(R-1)`, all at one
+    clock instant.  The final account does not depend on the interleaving, so the model runs the goroutines one after
+    the other. -/
+def soakOps (d : D) (spec : Bool) (G N R seed idBase : Nat) : D := Id.run do
+  let mut d := d
+  for g in [0:G] do
+    let mut x := lcg (seed + g * 7919)
+    for i in [0:N] do
+      let x1 := lcg x
+      let x2 := lcg x1
+      let x3 := lcg x2
+      let x4 := lcg x3
+      x := x4
+      let res := "s" ++ toString (x1 % R)
+      let id := idBase + g * N + i
+      let ch : Chain := if g % 2 = 0 then defaultChain d spec res (x3 % 3 + 1) [] else { pre := [.node], rules := [.pass], std := true, recs := [] }
+      let e : EntryOp := { id := id, res := res, inbound := x2 % 2 = 0, batch := x3 % 3 + 1, args := [], chain := ch }
+      d := apply d spec (.entry e)
+      if x4 % 3 = 1 then d := apply d spec (.trace id (some "t"))
+      d := apply d spec (.exit id (if x4 % 3 = 2 then some "x" else none))
+  return d
+
 def known (d : D) (spec : Bool) (id : Nat) : Bool :=
   if spec then (info d.h id).isSome else (findE d.st.ents id).isSome
 
@@ -183,6 +210,7 @@ def step (spec : Bool) (d : D) (ts : List String) (_ : String) : D × Option Str
       else
         let f : Bucket → Nat := if what = "maxconc" then (·.mc) else fun b => max 1 b.minRt
         if what ≠ "maxconc" && what ≠ "minrt" then (d, some "bad-op") else
+        if what = "maxconc" && (match d.soakAt with | some t => decide (d.now < t + 1000) | none => false) then (d, some "?") else
         if spec then
           if !d.mono then (d, some "?") else
           (d, some (twoSided d.fix (showOptNat f (specWindow d d.cT k 1000)) (showOptNat f (specWindow d d.cF k 1000))))
@@ -208,6 +236,12 @@ def step (spec : Bool) (d : D) (ts : List String) (_ : String) : D × Option Str
             match obsCtx d.st id with
             | none => (d, some "exited")
             | some v => (d, some (sh v))
+  | ["soak", G, N, R, seed] => match G.toNat?, N.toNat?, R.toNat?, seed.toNat? with
+      | some G, some N, some R, some seed =>
+        if R = 0 then (d, some "bad-op") else
+        let d' := soakOps d spec G N R seed (1000000 + d.soaks * 100000)
+        ({ d' with soaks := d.soaks + 1, soakAt := some d.now }, some "ok")
+      | _, _, _, _ => (d, some "bad-op")
   | ["reclog"] =>
       if spec then
         let a := showList ((d.cT.log.drop d.drT).map showRec)
